@@ -9,3 +9,15 @@ Theorem C08_asa_acl_every_prefix_accepted_partial :
     exists lk, dexec_prefix k (listA m) (diff_asa m) = Some lk /\ NoDup (bodies lk).
 Proof. exact asa_acl_every_prefix_accepted_proved. Qed.
 Print Assumptions C08_asa_acl_every_prefix_accepted_partial.
+
+(* IOS numbering core, for EVERY edit script (moves included; no line twice per ACL, runs < 10000):
+   every prefix of the numbered commands is accepted by the strict numbered ACL — sequence
+   numbers are free when used, no entry is added that the ACL already contains, every deleted
+   number exists. *)
+From Coq Require Import NArith.
+From NA Require Import Cisco.IosAcl Cisco.IosAclFresh Cisco.IosAclMoves Cisco.IosAclResume.
+Theorem C08_ios_acl_every_prefix_accepted :
+  forall m cs, nodupA m -> nodupB m -> short_runs m 0 -> diff_ios m = Some cs ->
+  forall k, exists lk, iexec_all (reseq (listA m)) (firstn k cs) = Some lk.
+Proof. exact ios_every_prefix_accepted. Qed.
+Print Assumptions C08_ios_acl_every_prefix_accepted.
